@@ -190,7 +190,21 @@ let () =
       match split_ws line with
       | [] -> ()
       | tok :: _ when String.length tok > 0 && tok.[0] = '#' -> ()
-      | ["state"; id; fk; file] -> Hashtbl.replace states id (fork_of_string fk, blob file)
+      | "state" :: id :: fk :: file :: stags ->
+          let f = fork_of_string fk in
+          let b = blob file in
+          Hashtbl.replace states id (f, b);
+          (* optional tag root=<hex>: the root zrnt's tree-backed view reported for this state *)
+          List.iter (fun t ->
+              if want && String.length t > 5 && String.sub t 0 5 = "root=" then begin
+                let go_root = String.lowercase_ascii (String.sub t 5 (String.length t - 5)) in
+                let go_root = if String.length go_root > 2 && String.sub go_root 0 2 = "0x" then String.sub go_root 2 (String.length go_root - 2) else go_root in
+                match run_state_root env f (bytes_of_string b) with
+                | Some r ->
+                    let mr = hex_of_string (string_of_bytes r) in
+                    report lineno (mr = go_root) (Printf.sprintf "stateroot %s" (if mr = go_root then "" else "spec=" ^ mr ^ " go=" ^ go_root))
+                | None -> report lineno false "stateroot model cannot decode state"
+              end) stags
       | ["blk"; id; fk; file] -> Hashtbl.replace blocks id (fork_of_string fk, blob file)
       | "slots" :: pre :: target :: post :: _stags when want ->
           (match Hashtbl.find_opt states pre with
